@@ -204,6 +204,35 @@ fn main() {
                 None => println!("none"),
             }
         }
+        "find-sm2-leading-zero" => {
+            // off-line search: scalars d whose point [d]G has a coordinate with >= `zeros` leading zero bytes
+            use num_bigint::BigUint;
+            use rayon::prelude::*;
+            let zeros: usize = args[2].parse().unwrap();
+            let steps: u64 = args[3].parse().unwrap();
+            let pr = refimpl::sm2::params();
+            let hits: Vec<String> = (0..64u64)
+                .into_par_iter()
+                .flat_map(|t| {
+                    let mut d = BigUint::from(1u32) + (BigUint::from(t) << 200) + BigUint::from(t * 7919);
+                    let mut p = refimpl::sm2::g_mul(&d);
+                    let mut out = Vec::new();
+                    for _ in 0..steps {
+                        let (x, y) = refimpl::sm2::xy(&p).unwrap();
+                        for (name, c) in [("x", x), ("y", y)] {
+                            let z = c.iter().take_while(|b| **b == 0).count();
+                            if z >= zeros {
+                                out.push(format!("{{\"d\":\"{:064x}\",\"coord\":\"{}\",\"zeros\":{}}}", d, name, z));
+                            }
+                        }
+                        p = pr.curve.add(&p, &pr.g);
+                        d += 1u32;
+                    }
+                    out
+                })
+                .collect();
+            println!("[{}]", hits.join(",\n"));
+        }
         "replay" => {
             let code = replay_file(&args[2], Tier::Quick, seed, false);
             std::process::exit(code);
